@@ -59,3 +59,18 @@ Example C06_generated_nonvacuous :
   let ind := [(0%nat, [(1%nat, z)]); (1%nat, [(0%nat, z)])] in
   ind = map (fun s => (s, aget_l s ind)) [0%nat; 1%nat] /\ cycle_check_gen 100 [0%nat; 1%nat] (fun s => aget_l s ind) = CycRejected [0%nat; 1%nat; 0%nat].
 Proof. vm_compute. split; reflexivity. Qed.
+
+(* known finding F9 as a theorem about the model: "the check either accepts or rejects with a cycle" is FALSE once delays of
+   different shapes meet.  Witness (known_findings.json F9: four simulators in one group, a fifth outside; 0 -> 4 -> 1 plain,
+   1 -> 3, 3 -> 2 and 0 -> 2 weak): the tables World.connect builds make the closure compare 0|0(2) with 0:0|(2), which are
+   neither <, = nor > - update_min's assertion fires (CycIncomparable), whatever the order in which the simulators are taken. *)
+Definition f9_flags (w : bool) : cflags := mkF true true true false true 0 w w true.
+Definition f9_conns : list conn :=
+  [mkConn 0 4 2 0 (f9_flags false) false 0; mkConn 4 1 2 0 (f9_flags false) false 0; mkConn 1 3 2 0 (f9_flags true) false 7;
+   mkConn 3 2 2 0 (f9_flags true) false 7; mkConn 0 2 2 0 (f9_flags true) false 7].
+Theorem C06_only_accept_or_reject_refuted :
+  exists t, build [None; Some 0%nat] (fun i => if Nat.eqb i 4 then 0%nat else 1%nat) f9_conns = BOk t /\
+            cycle_check 1000 (t_indel t) [0; 1; 2; 3; 4]%nat = CycIncomparable /\
+            cycle_check 1000 (t_indel t) [4; 3; 2; 1; 0]%nat = CycIncomparable.
+Proof. eexists. split; [vm_compute; reflexivity|]. split; vm_compute; reflexivity. Qed.
+Print Assumptions C06_only_accept_or_reject_refuted.
